@@ -32,8 +32,8 @@ def gen(pid, tier, rng, n=None, poison=None):
                              depth=rng.choice([0, 1, 1, 2]))
         pre = histgen.random_pre(rng, b, PRE[pid]) if rng.random() < 0.6 else []
         nt = rng.randint(*NTHREADS[pid])
-        # C10 / C11 / C06: some threads run their whole history inside a destructor during an unrelated unwind
-        unw = [t for t in range(nt) if pid in ("C10", "C11", "C06") and rng.random() < 0.12]
+        # C10 / C11 / C06 / C05 / C03: some threads run their whole history inside a destructor during an unrelated unwind
+        unw = [t for t in range(nt) if pid in ("C10", "C11", "C06", "C05", "C03") and rng.random() < 0.12]
         # a fifth of the histories are drawn with the profile of another history property (panic- / poison- / forget-heavy
         # mixes this property's own profile rarely produces); the monitor evaluated stays this property's
         prof = PROFILES[pid] if rng.random() < 0.8 else PROFILES[rng.choice(sorted(PROFILES))]
@@ -78,7 +78,7 @@ def coq_expr(pid, s, r):
                 f"wf_histb ({s.coq(*r['adr'])}))")
     if pid == "C10":
         sc_, ob_ = s.coq(*r['adr']), common.obs_list(r)
-        X = f"still_acquires ({sc_}) (pre_holds ({sc_})) (sc_hist ({sc_})) {ob_}"
+        X = f"still_acquires ({sc_}) (pre_holds ({sc_})) (sc_hist ({sc_})) {ob_} && mon_C10u ({sc_}) {ob_}"
         return (f"(let v := check_C10 ({sc_}) {ob_} in mkv (v_strict v) (v_proj v) (v_mon v && {X}) (v_monk v && {X}), "
                 f"wf_histb ({sc_}))")
     if pid == "C17":
